@@ -208,7 +208,7 @@ def work(ctx, tier):
 
         # ---------------------------------------------------------------- retry_after_or
         HINTS = [None, math.nan, math.inf, -math.inf, -5.0, -0.0, 0.0, 1e-9, 0.5, 3.0, 120.0, 1e308, 1.7976931348623157e308, 5, 0, 10**18]
-        JIT = [0.0, 0.25, -1.0, 1e308, 1e-12, 5.0]
+        JIT = [0.0, 0.25, -1.0, 1e308, 1e-12, 5.0, math.inf]
         REM = [None, 0.0, 1e-9, 0.5, 1.0, 60.0, 1e308]
         FB = [0.0, 1.0, math.nan, math.inf, -math.inf, -3.0, 1e308, 7.5]
         idx = 0
@@ -281,7 +281,9 @@ def _jitter_case(ctx, viol, draws, name, f, fn, g, base, mx, attempt, prev, mode
     ctx.add_hash("nontrivial", [name, base, mx, attempt if attempt < 2**63 else str(attempt), mode if mode != "seeded" else repr(r)])
 
 
-def _rao_case(ctx, viol, draws, hint, j, rem, fb, mode, shape="ctx-lambda"):
+def _rao_case(ctx, viol, draws, hint, j, rem, fb, mode, shape="ctx-lambda", judge_window=False):
+    """`judge_window`: also judge "at least the hint, at most hint + jitter_s, unless the remaining time is smaller" - that sentence is
+    C20's, so only C20's check asks for it; C18 itself states: finite, non-negative, no larger than the remaining deadline, never raises."""
     draws.mode = mode
     case = {"strategy": "retry_after_or", "hint": hint, "jitter_s": j, "remaining_s": rem, "fallback_returns": fb, "draw": mode, "fallback_shape": shape}
     ctx.cnt["eval:retry_after_or"] += 1
@@ -300,13 +302,20 @@ def _rao_case(ctx, viol, draws, hint, j, rem, fb, mode, shape="ctx-lambda"):
     if rem is not None and r > rem:
         viol("retry-after-or-exceeds-remaining", f"retry_after_or returned {r!r} > remaining {rem!r} for {case}", case)
     honoured = hint is not None and isinstance(hint, (int, float)) and math.isfinite(hint)
-    if honoured:
+    if honoured and not judge_window:
+        ctx.cnt["rao_hint_honoured"] += 1
+    elif honoured:
         ctx.cnt["rao_hint_honoured"] += 1
         h = max(0.0, float(hint))
         jj = max(0.0, j)
         lo, hi = h, h + jj
         if not math.isfinite(hi):
-            pass
+            # hint + jitter_s leaves float range (an infinite or astronomically large jitter): the window's upper end is unbounded, its
+            # lower end is still the hint
+            ctx.cnt["rao_hint_with_unbounded_jitter_window"] += 1
+            floor_ = lo if rem is None else min(lo, rem)
+            if not close_le(floor_, r):
+                viol("retry-after-or-outside-hint-window", f"returned {r!r}, expected at least {floor_!r} (hint {lo!r}, jitter_s {j!r}, remaining {rem!r}) for {case}", case)
         elif rem is None or rem >= hi:
             if not (close_le(lo, r) and close_le(r, hi)):
                 viol("retry-after-or-outside-hint-window", f"returned {r!r}, expected within [{lo!r}, {hi!r}] for {case}", case)
